@@ -26,12 +26,16 @@ type c15Scenario struct {
 
 const (
 	c15IncA = "commodity 1.000,00 EUR\naccount assets:bank\n\n2001-02-01 shop  ; trip:rome\n    expenses:food  5 EUR\n    assets:bank  -5 EUR\n\n2001-02-02 cafe  ; kind:x\n    expenses:coffee  2 USD\n    assets:cash\n"
-	c15IncB = "commodity $1,000.00\naccount assets:cash\n\n2001-03-01 shop  ; trip:paris\n    expenses:fuel  7 EUR\n    assets:cash  -7 EUR\n\n2001-03-02 cafe  ; mood:y\n    expenses:tea  3 CHF\n    assets:bank\n"
+	c15IncB = "commodity $1,000.00\naccount assets:cash\n\n2001-03-01 shop  ; trip:paris\n    expenses:fuel  7 EUR\n    assets:cash  -7 EUR\n\n2001-02-02 cafe  ; mood:y\n    expenses:tea  3 CHF\n    assets:bank\n"
 )
 
 func c15Scenarios() []c15Scenario {
-	unbal := "2001-01-01 two commodities\n    a:x  1 EUR\n    a:y  2 USD\n    a:z  -1 CHF @ 1 GBP\n\n2001-01-02 three commodities\n    a:x  1 EUR\n    a:y  2 USD\n    a:z  3 CHF\n    a:w  4 JPY\n"
-	main := "include a.journal\ninclude b.journal\n\n2001-01-01 market\n    expenses:veg  1 EUR\n    assets:wallet\n\n2001-01-05 shop\n    \n"
+	unbal := "2001-01-01 two commodities\n    a:x  1 EUR\n    a:y  2 USD\n    a:z  -1 CHF @ 1 GBP\n\n2001-01-02 three commodities\n    a:x  1 EUR\n    a:y  2 USD\n    a:z  3 CHF\n    a:w  4 JPY\n" +
+		// names that are equal under case folding (a comparison that folds case ties them)
+		"\n2001-01-03 case twins\n    a:x  1 EUR\n    a:y  2 eur\n    a:z  3 Eur\n    A:Z  4 EUr\n"
+	main := "include a.journal\ninclude b.journal\n\n2001-01-01 market\n    expenses:veg  1 EUR\n    assets:wallet\n\n2001-01-05 shop\n    \n" +
+		// names whose earliest use is in the included files (same date in both) and case twins of their names
+		"\n2001-04-01 cafe  ; trip:rome, Trip:x\n    Expenses:Food  1 eur\n    Assets:Bank\n"
 	reqs := func(doc string, typingLine int) []wire.Msg {
 		return []wire.Msg{
 			{Op: "completion", Doc: doc, Line: typingLine, Char: 4},      // account, empty fragment
@@ -51,13 +55,37 @@ func c15Scenarios() []c15Scenario {
 		}
 	}
 	files := map[string]string{"main.journal": main, "a.journal": c15IncA, "b.journal": c15IncB}
+	// every word of a document: definition, references and hover
+	sweep := func(doc, text string) []wire.Msg {
+		var out []wire.Msg
+		for ln, l := range strings.Split(text, "\n") {
+			col := 0
+			prevBlank := true
+			for _, r := range l {
+				blank := r == ' ' || r == '\t'
+				if !blank && prevBlank {
+					out = append(out, wire.Msg{Op: "definition", Doc: doc, Line: ln, Char: col}, wire.Msg{Op: "references", Doc: doc, Line: ln, Char: col}, wire.Msg{Op: "hover", Doc: doc, Line: ln, Char: col})
+				}
+				prevBlank = blank
+				col++
+				if r > 0xFFFF {
+					col++
+				}
+			}
+		}
+		return out
+	}
 	return []c15Scenario{
 		{Name: "S1-unbalanced-in-2-and-3-commodities", Files: map[string]string{"main.journal": unbal}, Open: []string{"main.journal"},
-			Reqs: []wire.Msg{{Op: "symbols", Doc: "main.journal"}, {Op: "hover", Doc: "main.journal", Line: 1, Char: 5}, {Op: "formatting", Doc: "main.journal"}, {Op: "completion", Doc: "main.journal", Line: 1, Char: 4}}},
-		{Name: "S2-root-and-two-included-files", Files: files, Open: []string{"main.journal"}, Reqs: reqs("main.journal", 8)},
-		{Name: "S3-workspace-root", Files: files, Root: true, Open: []string{"main.journal"}, Reqs: reqs("main.journal", 8)},
+			Reqs: append([]wire.Msg{{Op: "symbols", Doc: "main.journal"}, {Op: "hover", Doc: "main.journal", Line: 1, Char: 5}, {Op: "formatting", Doc: "main.journal"}, {Op: "completion", Doc: "main.journal", Line: 1, Char: 4}}, sweep("main.journal", unbal)...)},
+		{Name: "S2-root-and-two-included-files", Files: files, Open: []string{"main.journal"}, Reqs: append(reqs("main.journal", 8), sweep("main.journal", main)...)},
+		{Name: "S3-workspace-root", Files: files, Root: true, Open: []string{"main.journal"}, Reqs: append(reqs("main.journal", 8), sweep("main.journal", main)...)},
+		// two files become reachable at once through an edit of the root (the workspace adds them incrementally)
+		{Name: "S5-includes-added-by-an-edit", Files: map[string]string{"main.journal": strings.Replace(main, "include a.journal\ninclude b.journal\n", "; no includes yet\n; none\n", 1), "a.journal": c15IncA, "b.journal": c15IncB},
+			Root: true, Open: []string{"main.journal"},
+			Reqs: append(append([]wire.Msg{{Op: "change", Doc: "main.journal", Text: main}}, reqs("main.journal", 8)...), sweep("main.journal", main)...)},
 		{Name: "S4-three-open-documents", Files: files, Root: true, Open: []string{"main.journal", "a.journal", "b.journal"},
-			Reqs: []wire.Msg{{Op: "wsymbol", Text: ""}, {Op: "wsymbol", Text: "s"}, {Op: "completion", Doc: "a.journal", Line: 5, Char: 4}, {Op: "references", Doc: "b.journal", Line: 5, Char: 6}, {Op: "hover", Doc: "a.journal", Line: 4, Char: 8}}},
+			Reqs: append([]wire.Msg{{Op: "wsymbol", Text: ""}, {Op: "wsymbol", Text: "s"}, {Op: "completion", Doc: "a.journal", Line: 5, Char: 4}, {Op: "references", Doc: "b.journal", Line: 5, Char: 6}, {Op: "hover", Doc: "a.journal", Line: 4, Char: 8}}, sweep("a.journal", c15IncA)...)},
 	}
 }
 
